@@ -7,8 +7,8 @@ open BsVerif BsVerif.Proto BsVerif.PathIndex BsVerif.Symbols
 structure St where
   delim : String := "::"
   ix : Index Nat := {}
-  /-- the registry of the symbol sessions (`symnew` / `symobj` / `symdel`) -/
-  objs : List Obj := []
+  /-- the registry of the symbol sessions (`new sym` / `symobj` / `symdel`) -/
+  objs : List Entry := []
 
 /-- `x<hex name>:<kind>:<addr>` -/
 def decSym? (tok : String) : Option Sym :=
@@ -46,23 +46,23 @@ def step (s : St) : List String → St × String
     | some n => (s, encList toString (s.ix.get s.delim n))
     | none => (s, "bad-op")
   -- symbol sessions
-  | ["symnew", _prog] => ({ s with objs := [] }, "ok")
+  | ["new", "sym", _prog] => ({ s with objs := [] }, "ok")
   | ["symobj", file, dwarf, symtab] =>
     let tab? : Option (Option (List Sym)) :=
       if symtab == "none" then some none else (decList? decSym? symtab).map some
     match decStr? file, dwarf, tab? with
-    | some f, "0", some t => ({ s with objs := regAdd ⟨f, false, t, []⟩ s.objs }, "ok")
-    | some f, "1", some t => ({ s with objs := regAdd ⟨f, true, t, []⟩ s.objs }, "ok")
+    | some f, "0", some t => ({ s with objs := regAddE (load ⟨f, false, t, []⟩) s.objs }, "ok")
+    | some f, "1", some t => ({ s with objs := regAddE (load ⟨f, true, t, []⟩) s.objs }, "ok")
     | _, _, _ => (s, "bad-op")
   | ["symdel", file] => match decStr? file with
-    | some f => ({ s with objs := regRemove f s.objs }, "ok")
+    | some f => ({ s with objs := regRemoveE f s.objs }, "ok")
     | none => (s, "bad-op")
   | ["symrun", _tpl] => (s, "ok")
   | ["symobjs"] =>
-    (s, encList id (sortTokens (s.objs.map fun o => s!"{encStr o.file}:{if o.hasDwarf then 1 else 0}")))
+    (s, encList id (sortTokens (s.objs.map fun e => s!"{encStr e.obj.file}:{if e.obj.hasDwarf then 1 else 0}")))
   | ["sym", alts] => match decList? decAlt? alts with
     | some [] => (s, "bad-op")
-    | some as => (s, encList id (sortTokens ((getSymbols s.objs (patMatches as)).map encSym)))
+    | some as => (s, encList id (sortTokens ((getSymbolsE s.objs (patMatches as)).map encSym)))
     | none => (s, "bad-op")
   | _ => (s, "bad-op")
 
